@@ -106,6 +106,10 @@ GuardsCtor2(e) ==
                    /\ j \notin cs.handed
                    /\ Cardinality({<<b, y>> \in UNION {{<<bb, yy>> : yy \in DOMAIN e.args[bb].ids} : bb \in DOMAIN e.args} :
                                        e.args[b].ids[y] = j}) = 1),
+     \* the built-in Scope / Context handed to a constructor belong to the scope the service is constructed for
+     \* (the root scope for singletons)
+     CG("builtin_args_of_own_scope", {"C18", "C09"},
+           \A a \in Range(e.args) : a.k \in {"scope", "ctx"} => a.s = (IF r.life = "singleton" THEN "root" ELSE e.scope)),
      CG("constructed_in_live_scope", {"C13"}, TRUE)}
 
 \* an instance value registered as a singleton (not created by the container)
